@@ -44,6 +44,9 @@
  *      of the fault free run or the character of the page without its X/26 packets - the triplets behind
  *      the damaged one are dropped, not applied at another position ("corrected or contained"; the
  *      property's anchor "X/26 ... triplets are dropped, not misplaced").  Added after seed C03-4.
+ *  (f) X/27 packet with an uncorrectable link byte (two flips in one Hamming 8/4 byte of a link): every FLOF link
+ *      of the fetched page is the link of the fault free run or the link the page has without this packet.
+ *      Added after seed C03-6.
  *
  * Deviations from DESIGN.md: flat enumeration inside pool cases instead of mc_choose()
  * (one "deviation" = one fault pattern on one packet; nothing is gained by prefix
@@ -636,7 +639,7 @@ struct cprobe {
         /* results */
         int seen, kept, blank, bad, bad_col; unsigned bad_char; int bad_step;
         /* (e): capture the page as fetched at level 1.5 after the last packet */
-        int capture, cap_ok; uint16_t cap[25][40];
+        int capture, cap_ok; uint16_t cap[25][40]; int nav_ok; int nav[6][2];
 };
 
 struct evctx { struct hx seq, keys; uint64_t set; int n; int nev; struct pgkey evk[64]; };
@@ -870,6 +873,8 @@ static void run_tx(const struct tx *t, const uint8_t *skip, int fk, const uint8_
                 static vbi_page cpg;
                 pr->cap_ok = vbi_fetch_vt_page(vbi, &cpg, pr->pgno, pr->subno, VBI_WST_LEVEL_1p5, 25, FALSE);
                 if (pr->cap_ok) for (int r = 0; r < 25; r++) for (int c = 0; c < 40; c++) pr->cap[r][c] = cpg.text[r * cpg.columns + c].unicode;
+                pr->nav_ok = vbi_fetch_vt_page(vbi, &cpg, pr->pgno, pr->subno, VBI_WST_LEVEL_1p5, 25, TRUE);
+                if (pr->nav_ok) for (int i = 0; i < 6; i++) { pr->nav[i][0] = cpg.nav_link[i].pgno; pr->nav[i][1] = cpg.nav_link[i].subno; }
         }
         take_snapshot(vbi, &ev, out);
         vbi_event_handler_unregister(vbi, on_event, &ev);
@@ -1264,6 +1269,27 @@ static void evaluate(struct casectx *cx, const uint8_t *mask, const char *family
                                              t->name, k, in->pgno, in->subno, ms, br, bc, ef.cap[br][bc], eb.cap[br][bc], en.cap[br][bc]);
                         } else { mc_count("e_x26_containment_checked", 1); mc_outcome("(e) uncorrectable X/26 triplet: every cell enhanced as sent or level one"); }
                 } else if (eb.cap_ok && !ef.cap_ok) mc_outcome("(e) uncorrectable X/26 triplet: page not cached in the faulted run (contained)");
+        }
+
+        /* (f) containment of an uncorrectable X/27/0 link byte: every FLOF link of the fetched page is the link of the fault free
+         * run or what the page shows without this packet, never a third page ("never shown as data") */
+        if (p->kind == PK_X27 && mragOK && (desig < 0 || f[desig] <= 1) && !over2 && !nOther && maxH == 2 && in && in->lop) {
+                static struct cprobe ef, eb, en;
+                memset(&ef, 0, sizeof ef); ef.capture = 1; ef.pgno = in->pgno; ef.subno = in->subno; eb = ef; en = ef;
+                struct snap s2; uint8_t skip[MAXP] = { 0 }; skip[k] = 1;
+                run_label = "faulted (capture)"; run_tx(t, NULL, k, mask, &ef, &s2);
+                run_label = "fault free (capture)"; run_tx(t, NULL, -1, NULL, &eb, &s2);
+                run_label = "packet dropped (capture)"; run_tx(t, skip, -1, NULL, &en, &s2);
+                if (ef.nav_ok && eb.nav_ok && en.nav_ok) {
+                        int bad = -1;
+                        for (int i = 0; i < 6 && bad < 0; i++)
+                                if ((ef.nav[i][0] != eb.nav[i][0] || ef.nav[i][1] != eb.nav[i][1]) && (ef.nav[i][0] != en.nav[i][0] || ef.nav[i][1] != en.nav[i][1])) bad = i;
+                        if (bad >= 0)
+                                mc_violation("(f) uncorrectable X/27 link byte: a FLOF link of the fetched page is neither the transmitted link nor the link without the packet",
+                                             "T=%s packet %d (page %03x.%04x) %s: link %d is %03x.%04x, fault free %03x.%04x, without the packet %03x.%04x",
+                                             t->name, k, in->pgno, in->subno, ms, bad, ef.nav[bad][0], ef.nav[bad][1], eb.nav[bad][0], eb.nav[bad][1], en.nav[bad][0], en.nav[bad][1]);
+                        else { mc_count("f_x27_containment_checked", 1); mc_outcome("(f) uncorrectable X/27 link byte: every link as sent or as without the packet"); }
+                }
         }
 
         /* (d) */
